@@ -45,7 +45,7 @@ REPLAY_DIR = os.path.join(OUT_DIR, 'replays')
 EVIDENCE_DIR = os.path.join(VERIF_DIR, 'evidence')
 KNOWN_FINDINGS = os.path.join(VERIF_DIR, 'known_findings.json')
 
-MAX_VIOL_PER_SIG = 3       # kept per signature per shard
+MAX_VIOL_PER_SIG = 4       # kept per signature per shard
 MAX_OUTCOMES = 3000000     # cap on the distinct-outcome hash set (reported if hit)
 
 
@@ -285,25 +285,35 @@ def run_check(mod, tier, seed):
     merged, errors = run_shards(mod, tier, shards, seed=seed)
 
     known = load_known_findings()
-    # one representative per signature, shortest case first
+    # candidates per signature, shortest case first
     by_sig = collections.OrderedDict()
     for v in merged.violations:
         k = json.dumps(v['signature'], sort_keys=True)
-        cur = by_sig.get(k)
-        if cur is None or len(json.dumps(v['case'], default=repr)) < len(json.dumps(cur['case'], default=repr)):
-            by_sig[k] = v
+        by_sig.setdefault(k, []).append(v)
+    for k in by_sig:
+        by_sig[k].sort(key=lambda v: len(json.dumps(v['case'], default=repr)))
 
     lines = []
     n_unknown = 0
     n_known = 0
     harness_errors = list(errors)
-    for k, v in by_sig.items():
-        path = write_replay(v)
-        ok, out = confirm_in_fresh_interpreter(path)
-        if not ok:
-            harness_errors.append('violation did not reproduce in a fresh interpreter: %s\n%s'
-                                  % (path, out[-2000:]))
+    for k, cands in by_sig.items():
+        # a case that depends on what the worker had executed before does not reproduce in a fresh
+        # interpreter: try a few more candidates of the same signature before giving up
+        confirmed = None
+        tried = []
+        for v in cands[:8]:
+            path = write_replay(v)
+            ok, out = confirm_in_fresh_interpreter(path)
+            tried.append((path, out))
+            if ok:
+                confirmed = (v, path)
+                break
+        if confirmed is None:
+            harness_errors.append('violation did not reproduce in a fresh interpreter (history-dependent?): %s\n%s'
+                                  % (tried[0][0], tried[0][1][-1500:]))
             continue
+        v, path = confirmed
         kf = match_known(v, known)
         if kf is not None:
             n_known += 1
